@@ -72,10 +72,9 @@ func (f *Filename) Complete(match string) []Completion {
 }
 
 func (c *completion) skipPositional(s *parseState, n int) {
-	if n >= len(s.positional) {
-		s.positional = nil
-	} else {
-		s.positional = s.positional[n:]
+	// A remaining positional arg stays: it consumes all subsequent args.
+	for ; n > 0 && len(s.positional) > 0 && !s.positional[0].isRemaining(); n-- {
+		s.positional = s.positional[1:]
 	}
 }
 
